@@ -22,8 +22,7 @@ Proof.
   intros HK. destruct (entropy_enclosures K HK) as [A B]. split; [refine (Rle_trans _ _ _ (Req_le _ _ _) A)|refine (Rle_trans _ _ _ (Req_le _ _ _) B)];
   f_equal; unfold Q2R, h_half, h_one; cbn [Qnum Qden]; lra.
 Qed.
-(* composed (kernel-checked when the development is built; not re-listed in Properties/C10.v because `Print Assumptions` through the
-   interval library costs 10 s per theorem): with the Poisson entropy series itself, every truncation from 30 terms on *)
+(* composed (listed in Properties/C10.v): with the Poisson entropy series itself, every truncation from 30 terms on *)
 Theorem swap_values_differ_for_the_poisson_entropy_series K : (30 <= K)%nat ->
   pcmi_valueR (fun lam => partial_entropy lam K) t_orig + 3 / 4 < pcmi_valueR (fun lam => partial_entropy lam K) t_swap.
 Proof. intros HK. apply swap_values_gen, series_near_certified, HK. Qed.
